@@ -117,8 +117,8 @@ fn tab_step_2x3() {
     std::mem::forget(t);
 }
 
-// (Harnesses over `IterableKind::read` - nested constant array, index path with each index any usize, Display of the
-// array and alloc::fmt::format stubbed out - were measured for C18 after seeded change C18-b and are not run: with a
+// (Harnesses over `IterableKind::read` with a NON-EMPTY outer level - nested constant array, index path with each index
+// any usize, Display of the array and alloc::fmt::format stubbed out - were measured for C18 after seeded change C18-b and are not run: with a
 // symbolic path length 900 s / 10 GB without a verdict; with a concrete length, a two-level array and the non-final
 // index constrained to the out-of-range values 700 s without a verdict. `current = &v[i]` is a symbolic pointer as
 // soon as the guard is symbolic, and CBMC then explores the clone of every variant (graphs with their hash maps).)
@@ -160,4 +160,55 @@ fn span_reach_witness() {
         }
     }
     std::mem::forget(r);
+}
+
+// ---------------------------------------------------------------- idx (C18: indexing of nested constant arrays)
+// What IS tractable of `IterableKind::read`: an index path [i0, i1] (each any usize) into a nested array whose outer
+// level is EMPTY - every i0 is out of range there, the bounds guard of the non-final index is then a constant for CBMC
+// and no symbolic pointer arises - and any single index into a flat array. Asserted: the call returns, Err / Ok as the
+// shape dictates. (Non-empty outer levels: no verdict in 700-900 s, see the note above.)
+fn stub_format_idx(_a: std::fmt::Arguments<'_>) -> String {
+    String::new()
+}
+fn stub_iterable_fmt(_s: &crate::primitives::iterable::IterableKind, _f: &mut std::fmt::Formatter<'_>) -> std::fmt::Result {
+    Ok(())
+}
+#[kani::proof]
+#[kani::unwind(4)]
+#[kani::stub(<crate::primitives::iterable::IterableKind as std::fmt::Display>::fmt, stub_iterable_fmt)]
+#[kani::stub(alloc::fmt::format, stub_format_idx)]
+fn idx_read_empty_outer() {
+    let a = crate::primitives::iterable::IterableKind::Iterables(vec![]);
+    let i0: usize = kani::any();
+    let i1: usize = kani::any();
+    let r = a.read(vec![i0, i1]);
+    assert!(r.is_err());
+    std::mem::forget(r);
+    std::mem::forget(a);
+}
+#[kani::proof]
+#[kani::unwind(4)]
+#[kani::stub(<crate::primitives::iterable::IterableKind as std::fmt::Display>::fmt, stub_iterable_fmt)]
+#[kani::stub(alloc::fmt::format, stub_format_idx)]
+fn idx_read_flat() {
+    let a = crate::primitives::iterable::IterableKind::Integers(vec![1, 2, 3]);
+    let i0: usize = kani::any();
+    let r = a.read(vec![i0]);
+    assert!(r.is_ok() == (i0 < 3));
+    std::mem::forget(r);
+    std::mem::forget(a);
+}
+#[kani::proof]
+#[kani::unwind(4)]
+#[kani::stub(<crate::primitives::iterable::IterableKind as std::fmt::Display>::fmt, stub_iterable_fmt)]
+#[kani::stub(alloc::fmt::format, stub_format_idx)]
+fn idx_reach_witness() {
+    let a = crate::primitives::iterable::IterableKind::Integers(vec![1, 2, 3]);
+    let i0: usize = kani::any();
+    let r = a.read(vec![i0]);
+    if r.is_ok() {
+        assert!(false); // must be reported FAILED
+    }
+    std::mem::forget(r);
+    std::mem::forget(a);
 }
